@@ -1,11 +1,135 @@
-(** * C02 property theorems — statements only; proofs live in C02/TrackInitProofs.v. *)
-From Coq Require Import List Arith Bool.
-From Celer Require Import C02.TrackInit C02.TrackInitProofs.
+(** * C02 property theorems — statements only; proofs live in coq/C02/*.v.
+    Model: C02/TrackInit.v.  Invariant vocabulary: C02/InvA.v ([n_inactive],
+    [inactive_from]), C02/InvA2.v ([iidx], [vidx]), C02/InvB.v ([key],
+    [all_tracks], [survivors], [fresh_batch], [spec_all]).
+    All theorems quantify over ARBITRARY op lists from the initial state whose
+    execution respects the calling protocol ([exec] returns [Some]). *)
+From Coq Require Import List Arith Bool PeanoNat Permutation.
+From Celer Require Import C02.TrackInit C02.ListLemmas C02.InvA C02.InvA2 C02.InvB C02.TrackInitProofs C02.Examples.
 Import ListNotations.
 
-Theorem C02_insert_capacity_checked_first : forall cfg s ps,
-  ph s = Ready -> forallb (fun p => p_ev p <? n_events cfg) ps = true ->
-  capacity cfg < length ps + c_init (cnt s) ->
-  insert_primaries cfg s ps = Err (set_ph Failed s).
-Proof. exact insert_capacity_checked_first. Qed.
-Print Assumptions C02_insert_capacity_checked_first.
+Theorem C02_counters_vacancies_exact : forall cfg ops s,
+  exec cfg (init_state cfg) ops = Some s -> ph s <> Failed ->
+  length (slots s) = n_slots cfg /\
+  c_init (cnt s) = length (stack s) /\ length (stack s) <= capacity cfg /\
+  c_vac (cnt s) = n_inactive (slots s) /\
+  (ph s = Ready -> vac s = inactive_from 0 (slots s) /\ length (vac s) = c_vac (cnt s) /\
+                   c_alive (cnt s) = n_slots cfg - n_inactive (slots s)) /\
+  (ph s = Inited \/ ph s = Interacted -> c_active (cnt s) = n_slots cfg - n_inactive (slots s)).
+Proof. exact counters_vacancies_exact. Qed.
+Print Assumptions C02_counters_vacancies_exact.
+
+Theorem C02_step_counters : forall cfg ops s,
+  exec cfg (init_state cfg) ops = Some s ->
+  (forall ps s', insert_primaries cfg s ps = Ok s' ->
+     c_gen (cnt s') = c_gen (cnt s) + length ps /\ length (stack s') = length (stack s) + length ps) /\
+  (forall s', extend_from_secondaries cfg s = Ok s' ->
+     c_sec (cnt s') + length (stack s) = length (stack s') /\
+     c_alive (cnt s') = n_slots cfg - length (vac s') /\ c_vac (cnt s') = length (vac s')) /\
+  (forall s', initialize_tracks cfg s = Ok s' ->
+     length (stack s) - length (stack s') = Nat.min (c_vac (cnt s)) (c_init (cnt s)) /\
+     c_active (cnt s') = n_slots cfg - c_vac (cnt s')).
+Proof. exact step_counters. Qed.
+Print Assumptions C02_step_counters.
+
+Theorem C02_track_ids_unique : forall cfg ops s,
+  exec cfg (init_state cfg) ops = Some s -> ph s <> Failed ->
+  NoDup (map key (all_tracks s)) /\
+  Forall (fun t => tev t < n_events cfg /\ tid t < nth (tev t) (next_id s) 0 /\
+                   (forall p, tpar t = Some p -> p < tid t)) (all_tracks s).
+Proof. exact track_ids_unique. Qed.
+Print Assumptions C02_track_ids_unique.
+
+Theorem C02_init_assignment_injective : forall cfg ops s,
+  exec cfg (init_state cfg) ops = Some s -> ph s = Ready ->
+  let ci := c_init (cnt s) in
+  let cv := c_vac (cnt s) in
+  let num_new := Nat.min cv ci in
+  let indices := if charge_order cfg then partition_initializers (stack s) ci num_new else [] in
+  let ii := iidx (stack s) ci num_new (charge_order cfg) in
+  let vi := vidx (stack s) ci cv num_new (charge_order cfg) in
+  (* what each thread reads and writes *)
+  (forall t, fst (fst (init_thread cfg s indices num_new t)) = nth (vi t) (vac s) 0 /\
+             snd (fst (init_thread cfg s indices num_new t)) = nth (ii t) (stack s) dflt_trk) /\
+  (* both index maps are injective into their windows *)
+  (forall t, t < num_new -> ci - num_new <= ii t < ci /\ vi t < cv) /\
+  (forall t1 t2, t1 < num_new -> t2 < num_new -> ii t1 = ii t2 -> t1 = t2) /\
+  (forall t1 t2, t1 < num_new -> t2 < num_new -> vi t1 = vi t2 -> t1 = t2) /\
+  (* hence distinct threads write distinct, vacant slots *)
+  NoDup (map (fun t => nth (vi t) (vac s) 0) (seq 0 num_new)) /\
+  (forall t, t < num_new -> nth (vi t) (vac s) 0 < n_slots cfg /\
+                            sst (nth (nth (vi t) (vac s) 0) (slots s) dflt_slot) = Inactive).
+Proof. exact init_assignment_injective. Qed.
+Print Assumptions C02_init_assignment_injective.
+
+Theorem C02_scan_ranges_disjoint : forall counts i j,
+  i < j -> j < length counts ->
+  let scan := fst (exclusive_scan 0 counts) in
+  let total := snd (exclusive_scan 0 counts) in
+  nth i scan 0 + nth i counts 0 <= nth j scan 0 /\ nth j scan 0 + nth j counts 0 <= total.
+Proof. exact scan_ranges_disjoint. Qed.
+Print Assumptions C02_scan_ranges_disjoint.
+
+Theorem C02_secondaries_layout : forall cfg ops s s',
+  exec cfg (init_state cfg) ops = Some s -> extend_from_secondaries cfg s = Ok s' ->
+  let sp := spec_all (charge_order cfg) (slots s) (next_id s) in
+  slots s' = fst (fst sp) /\ stack s' = stack s ++ snd (fst sp) /\ next_id s' = snd sp.
+Proof. exact secondaries_layout. Qed.
+Print Assumptions C02_secondaries_layout.
+
+Theorem C02_exactly_once : forall cfg ops s,
+  exec cfg (init_state cfg) ops = Some s ->
+  (* primaries: one fresh initializer per primary, nothing else changes *)
+  (forall ps s', insert_primaries cfg s ps = Ok s' ->
+     slots s' = slots s /\
+     exists news, stack s' = stack s ++ news /\ length news = length ps /\
+       fresh_batch (n_events cfg) (next_id s) (next_id s') news) /\
+  (* initialisation: tracks are only moved from the stack into vacant slots *)
+  (forall s', initialize_tracks cfg s = Ok s' ->
+     Permutation (all_tracks s') (all_tracks s) /\
+     (forall j, j < n_slots cfg -> sst (nth j (slots s) dflt_slot) <> Inactive ->
+                nth j (slots s') dflt_slot = nth j (slots s) dflt_slot)) /\
+  (* physics does not touch identities *)
+  (forall f s', physics_outcome cfg s f = Ok s' -> all_tracks s' = all_tracks s) /\
+  (* secondaries: alive tracks and queued initializers stay, killed tracks
+     leave, each emitted secondary appears exactly once with a fresh id *)
+  (forall s', extend_from_secondaries cfg s = Ok s' ->
+     exists news,
+       Permutation (all_tracks s') ((survivors (slots s) ++ stack s) ++ news) /\
+       fresh_batch (n_events cfg) (next_id s) (next_id s') news /\
+       (forall j, sst (nth j (slots s) dflt_slot) = Alive -> j < n_slots cfg ->
+                  nth j (slots s') dflt_slot = nth j (slots s) dflt_slot)).
+Proof. exact exactly_once. Qed.
+Print Assumptions C02_exactly_once.
+
+Theorem C02_capacity_checked_first : forall cfg s,
+  (forall ps s', insert_primaries cfg s ps = Err s' ->
+     capacity cfg < length ps + c_init (cnt s) /\ s' = set_ph Failed s) /\
+  (forall ps, ph s = Ready -> forallb (fun p => p_ev p <? n_events cfg) ps = true ->
+     capacity cfg < length ps + c_init (cnt s) -> insert_primaries cfg s ps = Err (set_ph Failed s)) /\
+  (forall s', extend_from_secondaries cfg s = Err s' ->
+     slots s' = slots s /\ stack s' = stack s /\ parents s' = parents s /\ next_id s' = next_id s /\
+     capacity cfg < c_init (cnt s')) /\
+  (forall s', extend_from_secondaries cfg s = Ok s' -> c_init (cnt s') <= capacity cfg).
+Proof. exact capacity_checked_first. Qed.
+Print Assumptions C02_capacity_checked_first.
+
+Theorem C02_reset_then_run_ok : forall cfg ops s s1 ops' s2,
+  exec cfg (init_state cfg) ops = Some s ->
+  reset cfg s = Ok s1 ->
+  exec cfg s1 ops' = Some s2 ->
+  (stack s1 = [] /\ vac s1 = seq 0 (n_slots cfg) /\ cnt s1 = cnt (init_state cfg) /\ ph s1 = Ready /\
+   Forall (fun sl => sst sl = Inactive) (slots s1)) /\
+  InvA cfg s2 /\ InvB cfg s2.
+Proof. exact reset_then_run_ok. Qed.
+Print Assumptions C02_reset_then_run_ok.
+
+Theorem C02_drain_progress_partial : forall cfg ops s s',
+  exec cfg (init_state cfg) ops = Some s -> 1 <= n_slots cfg ->
+  initialize_tracks cfg s = Ok s' ->
+  length (stack s') = length (stack s) - Nat.min (n_inactive (slots s)) (length (stack s)) /\
+  (n_inactive (slots s) = n_slots cfg -> 0 < length (stack s) ->
+     length (stack s') < length (stack s) /\ n_inactive (slots s') < n_slots cfg).
+Proof. exact drain_progress_partial. Qed.
+Print Assumptions C02_drain_progress_partial.
+
